@@ -115,6 +115,9 @@ def gen_dispatch(rng, i):
         c['outs'] = [100 + rng.randrange(pool) for _ in range(n)]
         c['default'] = rng.choice([None, 200, 100]) if rng.random() < 0.7 else None
         c['pkts'] = [[p, gen_flow(rng, list(range(n)), n, malformed), 0] for p in range(npk)]
+        if rng.random() < 0.4:
+            # history: the same object first served packets with fewer outputs, then `outs` grew in place
+            c['warm'] = {'nouts': rng.randint(0, n), 'flows': [x[1] for x in c['pkts']] + [rng.randint(0, n + 1)]}
     elif kind == 'fibdemux':
         r = rng.random()
         if r < 0.08:
@@ -146,6 +149,14 @@ def gen_dispatch(rng, i):
         c['default'] = 200 if rng.random() < 0.5 else None
         known = [f for f, _ in c['ends']] + [f for f, _ in (c['fib'] or [])]
         c['pkts'] = [[p, gen_flow(rng, known, 12, malformed), 0] for p in range(npk)]
+        if c['fib'] is not None and rng.random() < 0.5:
+            # history: the same object first served packets of the same flows under an earlier configuration (fewer routes,
+            # fewer outputs, other end devices), then was reconfigured - through the `fib` setter or by updating the very
+            # dict / list objects it was given.  A demux has no memory: the packets of the case must go where a fresh one sends them.
+            c['warm'] = {'fib': [e for e in c['fib'] if rng.random() < 0.4],
+                         'nouts': rng.randint(0, nouts), 'ends': [e for e in c['ends'] if rng.random() < 0.4],
+                         'mode': rng.choice(['setter', 'inplace']),
+                         'flows': [x[1] for x in c['pkts']] + [rng.randint(0, 12)]}
     elif kind == 'simple':
         n = rng.randint(0, 6)
         c['nports'] = n
@@ -388,7 +399,20 @@ def run_dispatch(c, fails, hist):
                 after(p, entries, exc)
 
     if k == 'flowdemux':
-        d = FlowDemux([dev(x) for x in c['outs']], dev(c['default']))
+        w = c.get('warm')
+        if w:
+            outs_obj = [dev(x) for x in c['outs'][:w['nouts']]]
+            d = FlowDemux(outs_obj, dev(c['default']))
+            for j, f in enumerate(w['flows']):
+                try:
+                    with quiet():
+                        d.put(mk_packet(1000 + j, f, 0))
+                except Exception:      # noqa
+                    pass
+            outs_obj.extend(dev(x) for x in c['outs'][w['nouts']:])
+            hist['flowdemux:with-history'] += 1
+        else:
+            d = FlowDemux([dev(x) for x in c['outs']], dev(c['default']))
 
         def chk(p, entries, exc):
             f = p.flow_id
@@ -406,7 +430,32 @@ def run_dispatch(c, fails, hist):
         outs = None if c['outs'] is None else [dev(x) for x in c['outs']]
         ends = dict((f, dev(x)) for f, x in c['ends'])
         fib = None if c['fib'] is None else dict((f, p) for f, p in c['fib'])
-        d = FIBDemux(outs=outs, ends=ends, fib=fib, default_out=dev(c['default']))
+        w = c.get('warm')
+        if w and fib is not None:
+            outs0 = None if outs is None else outs[:w['nouts']]
+            ends0 = dict((f, dev(x)) for f, x in w['ends'])
+            fib0 = dict((f, p) for f, p in w['fib'])
+            d = FIBDemux(outs=outs0, ends=ends0, fib=fib0, default_out=dev(c['default']))
+            for j, f in enumerate(w['flows']):
+                try:
+                    with quiet():
+                        d.put(mk_packet(1000 + j, f, 0))
+                except Exception:      # noqa
+                    pass
+            if w['mode'] == 'setter':
+                d.fib = fib
+                d.outs = outs
+                d.ends = ends
+            else:
+                fib0.clear(); fib0.update(fib)
+                d.ends.clear(); d.ends.update(ends)      # (an empty `ends` argument is replaced by a dict of the demux's own)
+                if outs0 is not None:
+                    outs0[:] = outs
+                else:
+                    d.outs = outs
+            hist['fibdemux:with-history:' + w['mode']] += 1
+        else:
+            d = FIBDemux(outs=outs, ends=ends, fib=fib, default_out=dev(c['default']))
 
         def chk(p, entries, exc):
             exp = demux_expect(c, p.flow_id, c['outs'], c['default'])
@@ -480,10 +529,22 @@ def run_dispatch(c, fails, hist):
             fails.add(f'switch emitted objects that were never put: {stray}', 'switch-stray', c, lines[-6:])
     elif k == 'hub':
         env = Environment()
+        # another hub lives in the same process, built the other documented way (no lists, endpoints attached one by one):
+        # hubs are independent objects, nothing of it may show up at this one
+        decoy = Hub(env)
+        for j in range(2):
+            decoy.add_endpoint(Ep(f'decoy{j}', 900 + j, log), None)
         eps = [Ep(f'ep{e}', d, log) for e, d in c['eps']]
         ports = [None if x is None else dev(x) for x in c['ports']]
         try:
-            hub = Hub(env, eps, ports) if c['ports_arg'] else Hub(env, eps)
+            if not c['eps'] and not c['ports_arg']:
+                hub = Hub(env)
+            else:
+                hub = Hub(env, eps, ports) if c['ports_arg'] else Hub(env, eps)
+            given_eps, given_ports = eps, ports
+            eps, ports = list(eps), list(ports)
+            given_eps.append(Ep('bogus', 950, log))   # the caller's lists stay the caller's: growing them later attaches nothing
+            given_ports.append(None)
         except Exception as x:      # noqa
             lines.append('X ' + type(x).__name__)
             hist['raise:ctor:' + type(x).__name__] += 1
